@@ -176,6 +176,9 @@ impl ObjectWrite for Font {
 }
 
 
+/// CIDs are 16 bit (ISO 32000-1, 9.7.4): the largest code a /W array can talk about
+const MAX_CID: usize = 0xFFFF;
+
 #[derive(Debug)]
 pub struct Widths {
     values: Vec<f32>,
@@ -289,6 +292,9 @@ impl Font {
                     let c1 = p.as_usize()?;
                     match iter.next() {
                         Some(Primitive::Array(array)) => {
+                            if c1 + array.len() > MAX_CID + 1 {
+                                bail!("CID out of range in W array");
+                            }
                             widths.ensure_cid((c1 + array.len()).saturating_sub(1));
                             for (i, w) in array.iter().enumerate() {
                                 widths.set(c1 + i, w.as_number()?);
@@ -297,6 +303,9 @@ impl Font {
                         Some(&Primitive::Reference(r)) => {
                             match resolve.resolve(r)? {
                                 Primitive::Array(array) => {
+                                    if c1 + array.len() > MAX_CID + 1 {
+                                        bail!("CID out of range in W array");
+                                    }
                                     widths.ensure_cid((c1 + array.len()).saturating_sub(1));
                                     for (i, w) in array.iter().enumerate() {
                                         widths.set(c1 + i, w.as_number()?);
@@ -305,9 +314,13 @@ impl Font {
                                 p => return Err(PdfError::Other { msg: format!("unexpected primitive in W array: {:?}", p) })
                             }
                         }
-                        Some(&Primitive::Integer(c2)) => {
+                        Some(c2 @ &Primitive::Integer(_)) => {
+                            let c2 = c2.as_usize()?;
+                            if c2 > MAX_CID {
+                                bail!("CID out of range in W array");
+                            }
                             let w = try_opt!(iter.next()).as_number()?;
-                            for c in c1 ..= (c2 as usize) {
+                            for c in c1 ..= c2 {
                                 widths.set(c, w);
                             }
                         },
